@@ -142,6 +142,16 @@ func (evpool *Pool) Update(state sm.State, ev types.EvidenceList) {
 	}
 }
 
+// MarkCommitted records evidence of a block that was committed without the pool
+// seeing it: the handshake applies the last stored block with a stub pool when
+// the node stopped between saving that block and updating the pool. The evidence
+// gets its committed marker and leaves the pending set; doing it again is harmless.
+func (evpool *Pool) MarkCommitted(ev types.EvidenceList) {
+	evpool.admitMtx.Lock()
+	defer evpool.admitMtx.Unlock()
+	evpool.markEvidenceAsCommitted(ev)
+}
+
 // AddEvidence checks the evidence is valid and adds it to the pool.
 func (evpool *Pool) AddEvidence(ev types.Evidence) error {
 	evpool.logger.Debug("Attempting to add evidence", "ev", ev)
